@@ -147,7 +147,7 @@ def gen_valid_case(r, force=None):
     nops = force.get("nops", r.choices([0, 1, 2, 3], [55, 25, 12, 8])[0])
     for _ in range(nops):
         k = r.choices(["set_nd", "set_times", "set_start", "replace_times", "replace_start", "replace_nd"],
-                      [25, 30, 25, 12, 4, 4])[0]
+                      [25, 30, 25, 12, 4, 4] if not force.get("no_bare_replace") else [25, 30, 25, 12, 0, 0])[0]
         if k in ("set_nd", "replace_nd"):
             c["ops"].append([k, r.random() < 0.5])
         elif k in ("set_times", "replace_times"):
@@ -175,9 +175,39 @@ def all_exact(c) -> bool:
     return True
 
 
+RUN_KEYS = ("form", "times", "expr", "start", "nd", "ops", "plan", "wgroup", "reuse", "tamper", "entry")
+
+
+def eff(c):
+    """The run with the construction history of its Readout object made explicit: a run that re-uses the
+    Readout object of the previous run of its session (`reuse`) is the previous object's constructor form
+    and operations followed by its own operations."""
+    if not c.get("reuse"):
+        return c
+    pre = c.get("pre") or []
+    if not pre:
+        raise ValueError("reuse without a previous run")
+    base = eff(dict(pre[-1], pre=pre[:-1]))
+    d = dict(c, form=base["form"], times=base.get("times", []), start=base["start"], nd=base["nd"],
+             ops=list(base.get("ops", [])) + list(c.get("ops", [])), reuse=False)
+    if base.get("expr") is not None:
+        d["expr"] = base["expr"]
+    return d
+
+
+def final_nd(c) -> bool:
+    c = eff(c)
+    nd = bool(c["nd"])
+    for k, a in c.get("ops", []):
+        if k in ("set_nd", "replace_nd"):
+            nd = bool(a)
+    return nd
+
+
 def intended_all(c):
     """[(times, start, ndim)] of every schedule the caller installs (python mirror of Model.intended_all)."""
-    ts = [fl(t) for t in c.get("times", [])]
+    c = eff(c)
+    ts = [fl(t) for t in (case_times(c) if c["form"] == "numpy_str" else c.get("times", []))]
     start = fl(c["start"])
     ndim = 2 if c["form"] == "list2d" else 1
     out = [(ts, start, ndim)]
@@ -271,7 +301,105 @@ def gen_malformed_cases(r, reps=1):
     return out
 
 
-def gen_cases(ctx: Ctx, n_valid: int, mal_reps: int):
+TAMPER_TARGETS = ("rp.start_time", "rp.time", "rp.time_step", "rp.pipeline_count", "rp.read_out", "det.start_time",
+                  "det.time", "det.time_step", "det.pipeline_count", "junk", "set_readout")
+
+
+def gen_tamper(r, nxt_times, nxt_start, nxt_nd, p=0.5):
+    """Assignments a caller makes on the detector between two runs (public setters only)."""
+    out = []
+    if r.random() >= p:
+        return out
+    for _ in range(r.choice([1, 1, 2, 3])):
+        t = r.choice(TAMPER_TARGETS)
+        if t == "junk":
+            out.append([t, None])
+        elif t == "set_readout":
+            # the caller installs the NEXT run's sampling by hand, but from another start / in the other mode
+            out.append([t, dict(times=[hx(x) for x in nxt_times], start=hx(nxt_times[0] - r.choice(INCS) - 8.0),
+                                nd=(nxt_nd if r.random() < 0.7 else not nxt_nd))])
+        elif t.endswith("pipeline_count"):
+            out.append([t, r.choice([0, 1, 2, 5, -1])])
+        elif t.endswith("read_out"):
+            out.append([t, r.random() < 0.5])
+        else:
+            out.append([t, hx(r.choice([0.0, 1.0, -4.0, 0.5, 64.0, nxt_start + 0.25, nxt_times[0]]))])
+    return out
+
+
+def gen_session(r, n_runs=None, keep=None, reuse=None, tamper_p=0.5, n=None, entry=None):
+    """Several valid runs on ONE detector object. Between consecutive runs each of times / start_time /
+    non_destructive is independently kept or changed (`keep` = list of (times, start, nd) booleans, one per
+    transition); the next run uses the same Readout object (setter calls) or a new, possibly equal-valued one.
+    Returns the judged case = the last run, with the earlier runs under `pre`."""
+    n_runs = n_runs or r.choice([2, 2, 2, 3, 3, 4])
+    first = gen_valid_case(r, dict(form=r.choice(["list", "list", "tuple", "file_npy", "numpy_str", "intlist"]),
+                                   nops=r.choice([0, 0, 1]), n=n, no_bare_replace=True))
+    common = dict(history=first.pop("history"), rows=first.pop("rows"), cols=first.pop("cols"))
+    if entry:
+        first["entry"] = entry
+    runs = [first]
+    for j in range(1, n_runs):
+        prev = dict(runs[-1], pre=runs[:-1])
+        pts, pstart, _ = intended_final(prev)
+        pnd = final_nd(prev)
+        kt, ks, kn = keep[j - 1] if keep else (r.random() < 0.6, r.random() < 0.4, r.random() < 0.6)
+        use_obj = reuse[j - 1] if reuse else (r.random() < 0.5)
+        nstart = pstart
+        while not ks and nstart == pstart:
+            nstart = pts[0] - r.choice(INCS) if kt else pstart + r.choice([-1.0, -0.5, 0.25, 2.0, -8.0])
+        if kt:
+            nts = list(pts)
+            if not nstart < nts[0]:
+                nstart = nts[0] - r.choice(INCS)
+        else:
+            nts, _ = gen_times(r, n=(len(pts) if r.random() < 0.4 else None), start=max(pstart, nstart))
+        nnd = pnd if kn else (not pnd)
+        c = dict(nd=nnd, wgroup=r.choice(WGROUPS), ops=[])
+        if entry:
+            c["entry"] = entry
+        if use_obj:
+            c.update(reuse=True, form=prev["form"], times=[], start=hx(pstart))
+            if not kt or r.random() < 0.25:
+                c["ops"].append(["set_times", dict(form=r.choice(["list", "tuple", "ndarray"]), times=[hx(t) for t in nts])])
+            if not ks or r.random() < 0.25:
+                c["ops"].append(["set_start", hx(nstart)])
+            if not kn or r.random() < 0.25:
+                c["ops"].append(["set_nd", nnd])
+        else:
+            c.update(form=r.choice(["list", "list", "tuple", "file_npy"]), times=[hx(t) for t in nts], start=hx(nstart))
+        c["tamper"] = gen_tamper(r, nts, nstart, nnd, tamper_p)
+        c["plan"] = gen_plan(r, len(nts))
+        runs.append(c)
+    case = dict(runs[-1], pre=runs[:-1], **common)
+    if not all(all_exact(dict(runs[j], pre=runs[:j])) and
+               all(sched_class(*x) is None for x in intended_all(dict(runs[j], pre=runs[:j])))
+               for j in range(len(runs))):
+        return gen_session(r, n_runs, keep, reuse, tamper_p, n, entry)
+    return case
+
+
+def gen_sessions(r, n_random: int):
+    out = []
+    # every keep/change pattern of (times, start, nd) between two runs, with the same Readout object and with a
+    # new one; no tampering, so that the previous run's ReadoutProperties object is exactly what set_readout finds
+    for kt in (True, False):
+        for ks in (True, False):
+            for kn in (True, False):
+                for use_obj in (True, False):
+                    out.append(gen_session(r, n_runs=2, keep=[(kt, ks, kn)], reuse=[use_obj], tamper_p=0.0,
+                                           n=r.choice([1, 2, 3, 4])))
+    # the same schedule three times, start moving both ways
+    out.append(gen_session(r, n_runs=3, keep=[(True, False, True)] * 2, reuse=[True, True], tamper_p=0.0, n=3))
+    out.append(gen_session(r, n_runs=3, keep=[(True, False, True)] * 2, reuse=[False, False], tamper_p=0.0, n=2))
+    for _ in range(n_random):
+        out.append(gen_session(r))
+    for c in out:
+        c["judge_all"] = True
+    return out
+
+
+def gen_cases(ctx: Ctx, n_valid: int, mal_reps: int, n_sessions: int = 0):
     r = ctx.rng("cases")
     cases = []
     # every (history, mode) pair with a multi-step pixel-accumulating plan: the leak / flag mutations
@@ -295,6 +423,7 @@ def gen_cases(ctx: Ctx, n_valid: int, mal_reps: int):
     while len(cases) < n_valid:
         cases.append(gen_valid_case(r))
     cases += gen_malformed_cases(r, mal_reps)
+    cases += gen_sessions(ctx.rng("sessions"), n_sessions)
     return cases
 
 
@@ -362,7 +491,16 @@ def cobs(o) -> str:
             f"{core.cbool(ck['is_last_readout'])} {cdet(o['begin'])} {cdet(o['end'])})")
 
 
+def crp(rp) -> str:
+    if rp is None:
+        return "None"
+    return ("(Some (mkrp " + core.clist(ctv(t) for t in rp["times"]) + " " + core.clist(ctv(t) for t in rp["steps"]) +
+            f" {core.cz(int(rp['num']))} {ctv(rp['start'])} {core.cbool(bool(rp['nd']))} {ctv(rp['time'])} "
+            f"{ctv(rp['step'])} {core.cz(int(rp['count']))}))")
+
+
 def emit_case(c, o) -> str:
+    c = eff(c)
     if o.get("stage") is None:
         obs = "(IRan " + core.clist(cobs(x) for x in o["obs"]) + ")"
     else:
@@ -371,7 +509,7 @@ def emit_case(c, o) -> str:
     return ("{| k_form := " + ("FNdarray" if c["form"] == "ndarray" else "FList") +
             f"; k_raw := {craw(c['form'], case_times(c))}; k_start := {ctv(c['start'])}; "
             f"k_nd := {core.cbool(bool(c['nd']))}; k_ops := {core.clist(cop(k, a) for k, a in c.get('ops', []))}; "
-            f"k_d0 := {cdet(o['d0'])}; k_plan := {plan}; k_obs := {obs} |}}")
+            f"k_d0 := {cdet(o['d0'])}; k_rp0 := {crp(o.get('rp0'))}; k_plan := {plan}; k_obs := {obs} |}}")
 
 
 def emit_file(pairs) -> str:
@@ -379,15 +517,40 @@ def emit_file(pairs) -> str:
     return ("From Coq Require Import QArith ZArith List.\nFrom PyxelV Require Import Model.Exposure.\n"
             "From PyxelGen Require Import Gen_C02.\nImport ListNotations.\n"
             f"Definition cases : list c02_case := [\n  {body}\n].\n"
-            "Eval vm_compute in mismatches src_guards src_empty cases.\n"
+            "Eval vm_compute in mismatches src_guards src_empty src_set_readout cases.\n"
             "Eval vm_compute in violations cases.\n")
 
 
 # ------------------------------------------------------------------------------------------ classification
 
 
+def relation(c) -> str:
+    """How the run relates to the previous run made on the same detector object."""
+    pre = c.get("pre") or []
+    if not pre:
+        return "first_run"
+    prev = dict(pre[-1], pre=pre[:-1])
+    pts, pstart, _ = intended_final(prev)
+    ts, start, _ = intended_final(c)
+    same = lambda a, b: a == b or (a != a and b != b)  # noqa: E731
+    return ("times_" + ("same" if len(ts) == len(pts) and all(same(a, b) for a, b in zip(ts, pts)) else "changed") +
+            ",start_" + ("same" if same(start, pstart) else "changed") +
+            ",mode_" + ("same" if final_nd(c) == final_nd(prev) else "changed") +
+            ",readout_object_" + ("same" if c.get("reuse") else "new"))
+
+
 def classify(c, o):
     """(clause, sig-extras, what) of a case the Coq specification flagged (python side: naming only)."""
+    clause, extra, what = classify1(c, o)
+    if c.get("pre") and clause in ("clock", "step_start_buckets", "once_per_time", "unclassified"):
+        what += (f" -- run {len(c['pre']) + 1} of a session on one detector object; relative to the previous run: "
+                 f"{relation(c)}; caller's assignments before this run: {c.get('tamper') or 'none'}")
+    return clause, extra, what
+
+
+def classify1(c, o):
+    full = c
+    c = eff(c)
     alls = intended_all(c)
     fts, fstart, fnd = alls[-1]
     fin_cls = sched_class(fts, fstart, fnd)
@@ -407,10 +570,7 @@ def classify(c, o):
         return "invalid_accepted", dict(defect=fin_cls.replace("_repaired", ""), path=path), \
             f"invalid schedule ({fin_cls}) times={fts} start={fstart} was run ({len(o['obs'])} step(s) executed)"
     # ran on a valid schedule: which closed form fails?
-    nd = bool(c["nd"])
-    for k, a in c.get("ops", []):
-        if k in ("set_nd", "replace_nd"):
-            nd = bool(a)
+    nd = final_nd(c)
     obs = o["obs"]
     if len(obs) != len(fts):
         return "once_per_time", dict(), f"{len(obs)} steps executed for {len(fts)} readout times"
@@ -428,13 +588,13 @@ def classify(c, o):
             if b[bk] is not None:
                 kind = "leak_from_history" if (i == 0) else "not_emptied"
                 return "step_start_buckets", dict(bucket=bk, kind=kind, mode="nd" if nd else "destructive"), \
-                    f"step {i}: {bk} holds {b[bk]} at the start of the step (history={c.get('history')})"
+                    f"step {i}: {bk} holds {b[bk]} at the start of the step (history={full.get('history')})"
         exp_px = 0 if (i == 0 or not nd) else prev_end["pixel"]
         if b["pixel"] != exp_px:
             kind = "leak_from_history" if i == 0 else ("pixel_lost" if nd else "pixel_kept")
             return "step_start_buckets", dict(bucket="pixel", kind=kind, mode="nd" if nd else "destructive"), \
                 f"step {i}: pixel = {b['pixel']} at the start of the step, expected {exp_px} " \
-                f"(non_destructive={nd}, history={c.get('history')})"
+                f"(non_destructive={nd}, history={full.get('history')})"
         prev_t, prev_end = t, ob["end"]
     return "unclassified", dict(), "the Coq specification rejects the observations"
 
@@ -458,17 +618,29 @@ PER_FILE = 80
 
 def evaluate(ctx: Ctx, cases, tag="c", count=True):
     """Run implementation + Coq on the cases. Returns (mismatching, violating, pairs)."""
-    payload = [{k: v for k, v in c.items() if k not in ("malformed", "path", "view")} for c in cases]
+    payload = [dict({k: v for k, v in c.items() if k not in ("malformed", "path", "view", "judge_all")},
+                    all_runs=bool(c.get("judge_all"))) for c in cases]
     obs = core.run_driver(ctx, "c02", payload, workers=8)
     pairs = []
-    for c, o in zip(cases, obs):
-        if "crash" in o or "driver_error" in o:
-            ctx.broken.append(Broken("correspondence", "implementation driver failed", json.dumps(o)[:600], c))
-            continue
+
+    def add_pair(c, o):
         pairs.append((c, o))
         if o.get("obs_rp"):
             # detector.<clock property> and detector.readout_properties.<clock property> disagree
             pairs.append((dict(c, view="readout_properties"), dict(o, obs=o["obs_rp"])))
+
+    for c, o in zip(cases, obs):
+        if "crash" in o or "driver_error" in o:
+            ctx.broken.append(Broken("correspondence", "implementation driver failed", json.dumps(o)[:600], c))
+            continue
+        if c.get("judge_all"):
+            # a session: every run is judged, each as the case "this run after those runs"
+            runs = list(c.get("pre") or []) + [{k: v for k, v in c.items() if k in RUN_KEYS}]
+            common = {k: v for k, v in c.items() if k not in RUN_KEYS and k not in ("pre", "judge_all")}
+            for j, oj in enumerate(o["outs"]):
+                add_pair(dict(runs[j], pre=runs[:j], **common), oj)
+        else:
+            add_pair(c, o)
     files = {}
     for k in range(0, len(pairs), PER_FILE):
         files[f"{tag}_{k // PER_FILE:03d}"] = emit_file(pairs[k:k + PER_FILE])
@@ -486,18 +658,61 @@ def evaluate(ctx: Ctx, cases, tag="c", count=True):
         for c, o in pairs:
             ctx.count("evaluations")
             ctx.count("steps_observed", len(o.get("obs") or []))
-            ctx.dist("form", c["form"])
+            ctx.dist("form", eff(c)["form"])
             ctx.dist("history", c.get("history"))
-            ctx.dist("mode", "non_destructive" if c["nd"] else "destructive")
+            ctx.dist("earlier_runs_on_the_detector", len(c.get("pre") or []))
+            if c.get("pre"):
+                ctx.dist("session_transition", relation(c))
+                ctx.dist("tamper", ",".join(sorted({t for t, _ in c.get("tamper") or []})) or "-")
+            ctx.dist("mode", "non_destructive" if final_nd(c) else "destructive")
             ctx.dist("readouts", len(intended_final(c)[0]))
-            ctx.dist("ops", len(c.get("ops", [])))
+            ctx.dist("ops", len(eff(c).get("ops", [])))
             ctx.dist("malformed", c.get("malformed", "-"))
             ctx.dist("outcome", "ran" if o.get("stage") is None else f"rejected_stage_{o['stage']}")
     return mism, viol, pairs
 
 
+def flat(c, **kw):
+    """The run alone: its Readout construction made explicit, no earlier runs, no tampering."""
+    d = {k: v for k, v in eff(c).items() if k not in ("pre", "reuse", "tamper", "judge_all")}
+    d.update(kw)
+    return d
+
+
+def shrink_session(ctx: Ctx, c, o):
+    """A violating run that has earlier runs on its detector: does it violate alone? with only the previous run?"""
+    clause = classify1(c, o)[0]
+    pre = c["pre"]
+    prev = flat(dict(pre[-1], pre=pre[:-1]), plan=[])
+    for k in ("history", "rows", "cols", "malformed", "path", "view"):
+        prev.pop(k, None)
+    cands = [flat(c), flat(c, history="fresh", rows=1, cols=1)]
+    for hist in ("fresh", c.get("history", "fresh")):
+        for tamper in ([], c.get("tamper") or []):
+            for plan in ([], c.get("plan", [])):
+                cands.append(dict(c, pre=[prev], tamper=tamper, plan=plan, history=hist, rows=1, cols=1))
+                cands.append(dict(c, pre=[dict(prev, tamper=(pre[-1].get("tamper") or []))], tamper=tamper, plan=plan,
+                                  history=hist, rows=1, cols=1))
+    for d in cands:
+        d.pop("judge_all", None)
+    _, viol, _ = evaluate(ctx, cands, tag="shs", count=False)
+    best = None
+    for cc, oo in viol:
+        if classify1(cc, oo)[0] == clause:
+            size = (len(cc.get("pre") or []), len(cc.get("tamper") or []) + sum(len(x.get("tamper") or []) for x in cc.get("pre") or []),
+                    sum(len(st) for st in cc.get("plan", [])), 0 if cc.get("history") == "fresh" else 1)
+            if best is None or size < best[0]:
+                best = (size, cc, oo)
+    return (best[1], best[2]) if best else (c, o)
+
+
 def shrink(ctx: Ctx, c, o):
     """Smaller neighbours of a violating case; keep the smallest that still violates with the same clause."""
+    if c.get("pre"):
+        c, o = shrink_session(ctx, c, o)
+        if c.get("pre"):
+            return c, o         # the earlier run is part of the failing input
+    c = eff(c)
     clause = classify(c, o)[0]
     cands = []
 
@@ -508,10 +723,7 @@ def shrink(ctx: Ctx, c, o):
 
     alls = intended_all(c)
     fts, fstart, _ = alls[-1]
-    final_nd = bool(c["nd"])
-    for k, a in c.get("ops", []):
-        if k in ("set_nd", "replace_nd"):
-            final_nd = bool(a)
+    fnd = final_nd(c)
     base_forms = c["form"] if c["form"] in ("ndarray", "list2d") else "list"
     if clause in ("clock", "step_start_buckets", "once_per_time") and sched_class(fts, fstart) is None:
         px = [[["pixel", 3, True]] for _ in fts]
@@ -520,8 +732,8 @@ def shrink(ctx: Ctx, c, o):
                 for hist in ("fresh", c.get("history", "fresh")):
                     for plan in ([[] for _ in range(n)], px[:n], c.get("plan", [])[:n]):
                         cands.append(dict(form=base_forms, times=[hx(t) for t in fts[:n]], start=hx(fstart),
-                                          nd=final_nd, ops=[], plan=plan, history=hist, wgroup=c.get("wgroup"),
-                                          rows=1, cols=1))
+                                          nd=fnd, ops=[], plan=plan, history=hist, wgroup=c.get("wgroup"),
+                                          rows=1, cols=1, **({"entry": c["entry"]} if c.get("entry") else {})))
     else:
         add(plan=[], history="fresh", rows=1, cols=1)
         if len(c.get("ops", [])) > 1:
@@ -567,7 +779,7 @@ def record(ctx: Ctx, mism, viol, do_shrink=True):
             ctx.count("nan_midrun_crashes_not_compared")
             continue
         ctx.broken.append(Broken("correspondence", "Model/Exposure.v vs implementation",
-                                 f"model and implementation differ (form={c['form']}, ops={[k for k, _ in c.get('ops', [])]}, "
+                                 f"model and implementation differ (form={eff(c)['form']}, ops={[k for k, _ in eff(c).get('ops', [])]}, earlier_runs={len(c.get('pre') or [])}, "
                                  f"impl stage={o.get('stage')}, executed={o.get('executed')})",
                                  dict(case=c, observed=o)))
 
@@ -598,16 +810,17 @@ def run(ctx: Ctx):
         if not ok:
             ctx.broken.append(Broken("theorem", "coqchk of Properties/C02.v", core.tail(out, 20)))
 
-    cases = gen_cases(ctx, ctx.budget(260, 1500), ctx.budget(1, 3))
+    cases = gen_cases(ctx, ctx.budget(260, 1500), ctx.budget(1, 3), ctx.budget(40, 300))
     mism, viol, pairs = evaluate(ctx, cases)
     distinct = set()
     for c, o in pairs:
         n = len(intended_final(c)[0])
-        if n >= 2 or c.get("history") != "fresh" or c.get("malformed") or c.get("ops"):
+        if n >= 2 or c.get("history") != "fresh" or c.get("malformed") or c.get("ops") or c.get("pre"):
             distinct.add(json.dumps({k: c[k] for k in sorted(c)}, sort_keys=True))
     ctx.cov["distinct_nontrivial"] = len(distinct)
     ctx.cov["rule"] = ("distinct scenarios (constructor form + operations + mode + write plan + prior history) with >= 2 "
-                       "readouts, or a non-fresh detector, or setter/replace operations, or a malformed schedule")
+                       "readouts, or a non-fresh detector (junk / earlier runs of a session), or setter/replace operations, or a "
+                       "malformed schedule; every run of a session counts as one scenario (the run after its earlier runs)")
     ctx.cov["traces_validated_against_impl"] = len(pairs)
     ctx.cov["disagreements_checked"] = len(mism)
     ctx.cov["exhaustive"] = False
@@ -633,6 +846,7 @@ def search(ctx: Ctx):
                 cases.append(gen_valid_case(r, dict(history=h, nd=nd, form="list", n=n)))
     for _ in range(400):
         cases.append(gen_valid_case(r))
+    cases += gen_sessions(r, 150)
     mism, viol, pairs = evaluate(ctx, cases, tag="s")
     ctx.cov["search_cases"] = len(pairs)
     record(ctx, [], viol)
